@@ -249,7 +249,7 @@ def averaging_kernel(n_cols, *kernel_params):
 
 
 def difference_kernel(n_cols, start, step, stride, *kernel_params):
-    n_differences = int(np.ceil((n_cols - start - step) // stride))
+    n_differences = int(np.ceil((n_cols - start - step) / stride))
     result = np.zeros((n_differences, n_cols))
     for i in range(n_differences):
         result[i, start + i * stride] = -1
